@@ -279,6 +279,10 @@ class Interp:
             return self.call_function(m, [f] + list(args), kwargs, st, node)
         if isinstance(f, ExtV):
             return self.call_prim(f, args, kwargs, node, st)
+        if isinstance(f, PartialV):
+            kw2 = dict(f.kwargs)
+            kw2.update(kwargs)
+            return self.call(f.func, list(f.args) + list(args), kw2, node, st)
         self.unsupported('unresolved call %s' % (normalise(node.func) if node is not None else f), node)
         return TopV('unresolved call')
 
@@ -351,7 +355,7 @@ class Interp:
     # statements and expressions are in separate mixins to keep files small
     from .interp_expr import (eval, truth, e_Constant, e_Name, e_Attribute, e_Call, e_BinOp, e_UnaryOp, e_Compare,
                               e_BoolOp, e_IfExp, e_Subscript, e_Tuple, e_List, e_Dict, e_ListComp, e_GeneratorExp,
-                              e_JoinedStr, e_Lambda, e_Slice, e_Set, e_Starred, e_Yield, lookup, index_value, binop,
+                              e_JoinedStr, e_Lambda, e_Slice, e_Set, e_Starred, e_Yield, e_YieldFrom, lookup, index_value, binop,
                               compare_vals, comprehension)
     from .interp_stmt import (exec_block, exec_stmt, bind, store_subscript, iter_elem, s_If, s_For, s_While,
                               s_Try, loop_fix)
